@@ -10,6 +10,7 @@ package mqttproxy
 
 import (
 	"bytes"
+	"encoding/base64"
 	"encoding/json"
 	"fmt"
 	"net"
@@ -378,6 +379,7 @@ type c15Cli struct {
 	subacks int
 	eof     bool
 	autoAck bool
+	maxWait time.Duration // cap for the next waits (0: the general deadline)
 	closed  bool
 	client  *Client // broker-side object of this connection (in-package identity)
 }
@@ -425,6 +427,9 @@ func (c *c15Cli) reader() {
 // waitFor blocks until pred (evaluated under c.mu) holds, EOF, or the deadline.
 func (c *c15Cli) waitFor(pred func() bool) string {
 	wait := c15Wait()
+	if c.maxWait > 0 && c.maxWait < wait {
+		wait = c.maxWait
+	}
 	timer := time.AfterFunc(wait, func() {
 		c.mu.Lock()
 		c.cond.Broadcast()
@@ -557,6 +562,15 @@ func (c *c15Cli) unsubscribe(filters []string) string {
 
 func (e *c15Env) httpPublish(topic string, qos int, payload string) int {
 	return e.httpPublishDist(topic, qos, payload, false)
+}
+
+// httpPublishBytes posts an arbitrary binary payload (base64 flag of the endpoint).
+func (e *c15Env) httpPublishBytes(topic string, qos int, payload []byte) int {
+	body, _ := json.Marshal(HTTPJsonData{Topic: topic, QoS: qos, Payload: base64.StdEncoding.EncodeToString(payload), Base64: true})
+	w := httptest.NewRecorder()
+	r := httptest.NewRequest(http.MethodPost, "/mqttproxy/verif/topics/publish", bytes.NewReader(body))
+	e.b.httpTopicsPublishHandler(w, r)
+	return w.Code
 }
 
 func (e *c15Env) httpPublishDist(topic string, qos int, payload string, distributed bool) int {
